@@ -1,0 +1,69 @@
+//go:build verif && unix
+
+package vgirpc
+
+import (
+	"strconv"
+
+	"github.com/apache/arrow-go/v18/arrow"
+)
+
+// Verification hooks for property C35 (shared-memory batches read back
+// identically; pointers are safe). Add-only; exposes unexported helpers of
+// shm.go to the correspondence harness. Nothing here is used by the library.
+
+func init() {
+	verifConstProviders = append(verifConstProviders, func() []VerifConst {
+		return []VerifConst{
+			verifBytes("c35_k_off", MetaShmOffset),
+			verifBytes("c35_k_len", MetaShmLength),
+			verifBytes("c35_k_source", MetaShmSource),
+			verifBytes("c35_k_loglevel", MetaLogLevel),
+			verifBytes("c35_ipc_eos", string(ipcEOS[:])),
+			verifNum("c35_header_size", ShmHeaderSize),
+			verifNum("c35_int_size", strconv.IntSize),
+		}
+	})
+}
+
+// VerifC35Allocs returns the allocation table (offset, length) of the segment.
+func VerifC35Allocs(s *ShmSegment) [][2]uint64 {
+	s.mu.Lock()
+	defer s.mu.Unlock()
+	return s.readAllocs()
+}
+
+// VerifC35Bytes copies n bytes at off out of the mapping (nil when out of range).
+func VerifC35Bytes(s *ShmSegment, off uint64, n int) []byte {
+	s.mu.Lock()
+	defer s.mu.Unlock()
+	if n < 0 || off > uint64(len(s.data)) || uint64(n) > uint64(len(s.data))-off {
+		return nil
+	}
+	return append([]byte(nil), s.data[off:off+uint64(n)]...)
+}
+
+// VerifC35DataLenCap returns len and cap of the mapped slice and the size field.
+func VerifC35DataLenCap(s *ShmSegment) (int, int, int) { return len(s.data), cap(s.data), s.size }
+
+// VerifC35BatchBufferSize exposes batchBufferSize (the MaybeWriteToShm gate input).
+func VerifC35BatchBufferSize(b arrow.RecordBatch) int64 { return batchBufferSize(b) }
+
+// VerifC35MinBatchBytes exposes shmMinBatchBytes (the MaybeWriteToShm gate).
+func VerifC35MinBatchBytes() int64 { return shmMinBatchBytes() }
+
+// VerifC35SerializeFull exposes serializeForShmFull.
+func VerifC35SerializeFull(b arrow.RecordBatch) ([]byte, error) { return serializeForShmFull(b) }
+
+// VerifC35SerializeStripped exposes serializeForShm.
+func VerifC35SerializeStripped(b arrow.RecordBatch) ([]byte, error) { return serializeForShm(b) }
+
+// VerifC35SchemaOnlyStream exposes writeSchemaOnlyStream.
+func VerifC35SchemaOnlyStream(s *arrow.Schema) ([]byte, error) { return writeSchemaOnlyStream(s) }
+
+// VerifC35SkipOneIPCMessage exposes skipOneIPCMessage.
+func VerifC35SkipOneIPCMessage(buf []byte) (int, error) { return skipOneIPCMessage(buf) }
+
+// VerifC35HasTopLevelDictionary / VerifC35HasNestedDictionary expose the layout discriminators.
+func VerifC35HasTopLevelDictionary(s *arrow.Schema) bool { return schemaHasTopLevelDictionary(s) }
+func VerifC35HasNestedDictionary(s *arrow.Schema) bool   { return schemaHasNestedDictionary(s) }
